@@ -16,7 +16,7 @@ def plan(ctx):
     exh.append(("dd-ext-lim", sched.mk([["G", "a"], "b"], extra=["x"], always={"G": True}, Tocks=[0, 3], MaxSteps=3, Limit=3, Tock=2, MaxOps=1,
                                        Rets=["T", "N"], ext={"G": [["x"]]})))
     mc = [("nest-mc", sched.mk(sched.NEST, Tocks=[0, 1, 3], MaxSteps=4, Limit=5, Tock=2, Rets=["T", "F", "N"], EnterOuts=["ok", "r"]))]
-    sim = [("big", c03.plan(ctx)["sim"][0][1], 500 if q else 20000)]
+    sim = [("big", c03.plan(ctx)["sim"][0][1], 500 if q else 60000)]
     return dict(mc=mc, exh=exh, sim=sim)
 
 
